@@ -287,6 +287,25 @@ def mix_block_dtypes(rng, blocks, ndtypes=None):
     return out, sorted(set(assign))
 
 
+def real_parts_in_some_blocks(rng, x):
+    """Keep only the real part (as a REAL-typed block) of a non-empty proper subset of the
+    stored blocks of a complex array, in place - the state `a + 1j * b` leaves behind when b
+    lacks some of a's sectors. With probability 0.6 the first stored block is among them, so
+    that array-level metadata read off the first block (`x.dtype`) says 'real' while later
+    blocks are complex. -> True when the array now holds both kinds."""
+    keys = list(x.blocks)
+    if len(keys) < 2 or not any(np.iscomplexobj(x.blocks[k]) for k in keys):
+        return False
+    sub = set(rng.sample(keys, rng.randint(1, len(keys) - 1)))
+    if rng.random() < 0.6:
+        sub.add(keys[0])
+        if len(sub) == len(keys):
+            sub.discard(keys[-1])
+    for k in sub:
+        x.blocks[k] = np.ascontiguousarray(np.real(x.blocks[k]))
+    return any(np.iscomplexobj(b) for b in x.blocks.values()) and not all(np.iscomplexobj(b) for b in x.blocks.values())
+
+
 # probability that make_array hands the constructor an unusual but valid form of its inputs
 EXOTIC = 0.06
 EXOTIC_SEEN = {}
